@@ -15,7 +15,7 @@ pub fn def() -> CheckDef {
         meta: CheckMeta {
             id: "C10",
             level: "exploration",
-            rule: "seeded long stationary workloads (quick 800, thorough 4000 transactions each) over a bounded key set: (0) fixed-size overwrite, (1) variable-size overwrite/delete with values from 10 bytes to 4 pages, (2) bucket create/fill/delete cycles; variants: reopen every 25 transactions, 10% rollbacks, a reader pinned for the stretch [N/3, N/2) (file pre-sized, as in C03), and rolling young readers (a fresh reader open at the moment every writer begins and closed before its commit; or a reader opened after each commit and held across the whole next write transaction) which never need old pages. After every commit the independent parser measures live_t (reachable + free-list page run), dirty_t (pages in use now that were not in use before the commit) and the high-water mark H_t. Oracles: (i) without a pinned reader H_end <= 4*(max live + 2*max dirty) + 16 (fixed-size workload: max live + 3*max dirty + 8); (ii) with a pinned reader its dump stays equal to its snapshot at every 10th step, and H_end <= H_at_close + 2*max dirty + 8; (iii) the same across reopen; every commit also passes exact page accounting and matches the model. Non-trivial = run of >= 300 commits whose cumulative dirty pages exceed 10x the bound. Distinct = (workload, variant, seed).",
+            rule: "seeded long stationary workloads (quick 800, thorough 4000 transactions each) over a bounded key set: (0) fixed-size overwrite, (1) variable-size overwrite/delete with values from 10 bytes to 4 pages, (2) bucket create/fill/delete cycles; variants: reopen every 25 transactions, 10% rollbacks, a reader pinned for the stretch [N/3, N/2) (file pre-sized, as in C03), and rolling young readers (a fresh reader open at the moment every writer begins and closed before its commit; or a reader opened after each commit and held across the whole next write transaction) which never need old pages. After every commit the independent parser measures live_t (reachable + free-list page run), dirty_t (pages in use now that were not in use before the commit) and the high-water mark H_t. Oracles: (i) without a pinned reader H_end <= 4*(max live + 2*max dirty) + 16 (fixed-size workload: max live + 3*max dirty + 8); (ii) with a pinned reader its dump stays equal to its snapshot at every 10th step, and H_end <= H_at_close + 2*max dirty + 8; (iii) the same across reopen; (iv) runs that begin with a one-off phase leaving more than 1024 pages in the free set (3000 keys put then deleted, or their bucket deleted) followed by the same stationary workloads: H at every step <= H when the stationary phase began + 2*max dirty + 8; every commit also passes exact page accounting and matches the model. Non-trivial = run of >= 300 commits whose cumulative dirty pages exceed 10x the bound (for (iv): >= 300 commits starting from more than 1024 free pages). Distinct = (workload, variant, seed).",
             assumptions: &[
                 "bounds are relative to live and dirty pages measured on the same run, so a different fill factor or allocation policy that still reuses space stays within them",
                 "calibrated on the unchanged tree: H plateaus well inside the bound, a free list that never releases pages exceeds it within a few hundred transactions",
@@ -38,6 +38,10 @@ pub struct C10Case {
     pub rolling: u8,
     pub seed: u64,
     pub ntx: u32,
+    /// 0 none; before the stationary workload a one-off phase leaves a large free set behind
+    /// (> 1024 pages): 1 = 3000 keys put and then deleted, 2 = the same bucket deleted as a whole
+    #[serde(default)]
+    pub prelude: u8,
 }
 
 #[derive(Default, Debug)]
@@ -52,6 +56,9 @@ pub struct C10Stats {
     pub reopens: u64,
     pub rollbacks: u64,
     pub discarded: bool,
+    /// high-water mark and free-list length when the prelude was over
+    pub h_prelude: u64,
+    pub free_prelude: u64,
 }
 
 fn gen_tx(case: &C10Case, rng: &mut Rng, i: u32, model: &MBucket) -> Vec<Op> {
@@ -127,6 +134,43 @@ pub fn run_case(case: &C10Case, path: &std::path::Path, st: &mut C10Stats) -> Re
         run_tx(&db, &setup, false, &mut work, &opts, &mut cs, &mut at, None)?;
         model = work;
         let mut prev_used: HashSet<u64> = HashSet::new();
+        if case.prelude != 0 {
+            // "zbig" sorts behind /w and everything below it, so selector 0xFFFF addresses it
+            let mut fill = vec![Op::CreateBucket { b: 0, k: KeySel::Lit(b"zbig".to_vec()), kk: 2 }];
+            for j in 0..12u16 {
+                fill.push(Op::PutRun { b: 0xFFFF, base: b"z".to_vec(), start: j * 250, step: 1, n: 250, klen: 0, vlen: 350 });
+            }
+            let clear = if case.prelude == 1 {
+                (0..12).map(|_| Op::DeleteRun { b: 0xFFFF, start: 0, n: 250 }).collect()
+            } else {
+                vec![Op::DeleteBucket { b: 0, k: KeySel::Lit(b"zbig".to_vec()), kk: 2 }]
+            };
+            let small = |j: u8| vec![Op::Put { b: 0, k: KeySel::Lit(b"key000".to_vec()), v: ValSel::Fill { len: 300, seed: j }, kk: 2, vk: 2 }];
+            for (pi, ops) in [fill, clear, small(1), small(2), small(3)].into_iter().enumerate() {
+                let mut work = model.clone();
+                let mut at = None;
+                run_tx(&db, &TxSpec { kind: TxKind::Commit, ops }, false, &mut work, &opts, &mut cs, &mut at, None).map_err(|mut f| {
+                    f.msg = format!("prelude step {}: {}", pi, f.msg);
+                    f
+                })?;
+                model = work;
+            }
+            let bytes = read_prefix(path, 1024)?;
+            let rep = fsck::fsck(&bytes, 1024);
+            if !rep.ok() {
+                return Err(Failure::new("fsck", format!("after the prelude: {}", rep.errors.join("; "))));
+            }
+            if let Some(df) = crate::model::diff(&model, rep.dump.as_ref().unwrap(), &mut vec![], true) {
+                return Err(Failure::new("fsck_dump", format!("after the prelude: {}", df)));
+            }
+            st.h_prelude = rep.stats.num_pages;
+            st.free_prelude = rep.stats.free_entries as u64;
+            for (p, n) in &rep.stats.used_runs {
+                for q in *p..*p + *n {
+                    prev_used.insert(q);
+                }
+            }
+        }
         let pin_from = case.ntx / 3;
         let pin_to = case.ntx / 2;
         let mut i = 0u32;
@@ -218,7 +262,13 @@ pub fn run_case(case: &C10Case, path: &std::path::Path, st: &mut C10Stats) -> Re
                         }
                         // the bound must hold for every prefix of the run as well (stationary workload)
                         if !case.pinned_reader && st.commits >= 100 {
-                            let b = if case.workload == 0 { st.max_live + 3 * st.max_dirty + 8 } else { 4 * (st.max_live + 2 * st.max_dirty) + 16 };
+                            let b = if case.prelude != 0 {
+                                st.h_prelude + 2 * st.max_dirty + 8
+                            } else if case.workload == 0 {
+                                st.max_live + 3 * st.max_dirty + 8
+                            } else {
+                                4 * (st.max_live + 2 * st.max_dirty) + 16
+                            };
                             if st.h_end > b {
                                 st.bound = b;
                                 return Err(Failure::new(
@@ -261,6 +311,8 @@ pub fn run_case(case: &C10Case, path: &std::path::Path, st: &mut C10Stats) -> Re
         // bounds
         let bound = if case.pinned_reader {
             st.h_close + 2 * st.max_dirty + 8
+        } else if case.prelude != 0 {
+            st.h_prelude + 2 * st.max_dirty + 8
         } else if case.workload == 0 {
             st.max_live + 3 * st.max_dirty + 8
         } else {
@@ -273,7 +325,7 @@ pub fn run_case(case: &C10Case, path: &std::path::Path, st: &mut C10Stats) -> Re
                 format!(
                     "high-water mark {} pages after {} commits exceeds the bound {} (max live {} pages, max dirty {} per commit, cumulative dirty {}{}): freed space is not being reused",
                     st.h_end, st.commits, bound, st.max_live, st.max_dirty, st.cum_dirty,
-                    if case.pinned_reader { format!(", high-water mark when the pinned reader closed {}", st.h_close) } else { String::new() }
+                    if case.pinned_reader { format!(", high-water mark when the pinned reader closed {}", st.h_close) } else if case.prelude != 0 { format!(", high-water mark {} and {} free-list entries when the stationary workload began", st.h_prelude, st.free_prelude) } else { String::new() }
                 ),
             ));
         }
@@ -318,6 +370,22 @@ pub fn plan(ctx: &ShardCtx) -> Vec<C10Case> {
             rolling: if idx % 5 == 1 { 1 } else if idx % 5 == 4 { 2 } else { 0 },
             seed,
             ntx,
+            prelude: 0,
+        });
+    }
+    // stationary workloads that start with a large free set (> 1024 pages) left by a one-off phase
+    let per2 = ctx.tier.pick(2, 6);
+    for j in 0..per2 {
+        let idx = ctx.shard * per2 + j;
+        v.push(C10Case {
+            workload: (idx % 3) as u8,
+            reopen_every: if (idx / 3) % 2 == 1 { 25 } else { 0 },
+            rollbacks: false,
+            pinned_reader: false,
+            rolling: 0,
+            seed: mix(ctx.shard_seed("c10p"), j as u64),
+            ntx: ntx / 2,
+            prelude: 1 + ((idx / 6) % 2) as u8,
         });
     }
     v
@@ -330,7 +398,7 @@ fn shard(ctx: &ShardCtx, known: &Known) -> ShardOut {
         note_current(ctx, "c10", &case);
         let mut st = C10Stats::default();
         let r = run_case(&case, &path, &mut st);
-        let nt = !st.discarded && st.commits >= 300 && st.cum_dirty > 10 * st.bound.max(1);
+        let nt = !st.discarded && st.commits >= 300 && (st.cum_dirty > 10 * st.bound.max(1) || (case.prelude != 0 && st.free_prelude > 1024));
         if st.discarded {
             out.excluded += 1;
         }
@@ -350,9 +418,12 @@ fn shard(ctx: &ShardCtx, known: &Known) -> ShardOut {
         if case.rolling == 2 {
             classes.push("rolling readers: each held across one write transaction".into());
         }
+        if case.prelude != 0 {
+            classes.push(format!("starts with a large free set ({})", if case.prelude == 1 { "3000 keys deleted" } else { "big bucket deleted" }));
+        }
         out.extra.entry("runs".into()).or_insert_with(|| serde_json::json!([]));
         if let Some(serde_json::Value::Array(a)) = out.extra.get_mut("runs") {
-            a.push(serde_json::json!({"case": case, "commits": st.commits, "max_live": st.max_live, "max_dirty": st.max_dirty, "cum_dirty": st.cum_dirty, "h_end": st.h_end, "h_close": st.h_close, "bound": st.bound}));
+            a.push(serde_json::json!({"case": case, "commits": st.commits, "max_live": st.max_live, "max_dirty": st.max_dirty, "cum_dirty": st.cum_dirty, "h_end": st.h_end, "h_close": st.h_close, "h_prelude": st.h_prelude, "free_prelude": st.free_prelude, "bound": st.bound}));
         }
         record_case(ctx, &mut out, known, "c10", &case, CaseVerdict { nontrivial: nt, classes, failure: r.err() });
     }
